@@ -63,10 +63,13 @@ Definition step (s : st) (e : ev) : option st :=
                 acked := add b (acked s) |}
       else None
   | EFetch b o =>
-      if mem b (need s) then
+      (* the receive hook adds the blob to needCopy some time between the source's acknowledgement and its own queue.Set:
+         for an upload still in that window the addition may come late - after an earlier copy of the same blob has
+         already been completed and dropped from needCopy - so a copy of a blob with an upload in flight is possible *)
+      if mem b (need s) || mem b (pend s) then
         match stage_of b (cop s) with
         | Some _ => None     (* one copy of a blob at a time *)
-        | None => Some (upd s (src s) (dest s) (queue s) (need s) (match o with FOk => cset b Fetched (cop s) | _ => cop s end))
+        | None => Some (upd s (src s) (dest s) (queue s) (add b (need s)) (match o with FOk => cset b Fetched (cop s) | _ => cop s end))
         end
       else None
   | EDestRecv b o =>
